@@ -326,8 +326,10 @@ impl Drop for Replace<'_> {
     fn drop(&mut self) {
         // Ensure we drain all remaining overlapping ranges
         for _ in &mut *self {}
-        // Insert the final aggregate range
-        self.set.0.insert(self.range.start, self.range.end);
+        // Insert the final aggregate range, unless it is empty: an empty range must never be stored
+        if !self.range.is_empty() {
+            self.set.0.insert(self.range.start, self.range.end);
+        }
     }
 }
 
